@@ -874,7 +874,77 @@ make_fn!(
     )
 );
 
+// The grammar backtracks: an operand is parsed as part of an operator
+// expression first and again as a plain expression if no operator follows, and
+// several alternatives start with the same sub-expression. Every level of
+// nesting therefore multiplied the work (a list nested 12 deep took minutes to
+// parse). `expression` is a pure function of the token position, so within one
+// token list we remember the expressions that were already parsed.
+struct ExprMemo {
+    tokens: (usize, usize),
+    done: std::collections::HashMap<usize, (usize, Expression)>,
+}
+
+thread_local! {
+    static EXPR_MEMO: std::cell::RefCell<Option<ExprMemo>> = const { std::cell::RefCell::new(None) };
+}
+
+/// Activates the expression memo for one token list for as long as it lives.
+struct ExprMemoScope {
+    prev: Option<ExprMemo>,
+}
+
+impl ExprMemoScope {
+    fn new(tokens: &[Token]) -> Self {
+        let memo = ExprMemo {
+            tokens: (tokens.as_ptr() as usize, tokens.len()),
+            done: std::collections::HashMap::new(),
+        };
+        ExprMemoScope {
+            prev: EXPR_MEMO.with(|m| m.borrow_mut().replace(memo)),
+        }
+    }
+}
+
+impl Drop for ExprMemoScope {
+    fn drop(&mut self) {
+        EXPR_MEMO.with(|m| *m.borrow_mut() = self.prev.take());
+    }
+}
+
+fn token_list_id(input: &SliceIter<Token>) -> (usize, usize) {
+    use abortable_parser::{Span, SpanRange};
+    let all = input.span(SpanRange::RangeFull(..));
+    (all.as_ptr() as usize, all.len())
+}
+
 pub fn expression(input: SliceIter<Token>) -> ParseResult<Expression> {
+    use abortable_parser::Offsetable;
+    let id = token_list_id(&input);
+    let offset = input.get_offset();
+    let remembered = EXPR_MEMO.with(|m| match m.borrow().as_ref() {
+        Some(memo) if memo.tokens == id => memo.done.get(&offset).cloned(),
+        _ => None,
+    });
+    if let Some((rest_offset, expr)) = remembered {
+        let mut rest = input.clone();
+        while rest.get_offset() < rest_offset && rest.next().is_some() {}
+        return Result::Complete(rest, expr);
+    }
+    let result = expression_uncached(input);
+    if let Result::Complete(ref rest, ref expr) = result {
+        EXPR_MEMO.with(|m| {
+            if let Some(memo) = m.borrow_mut().as_mut() {
+                if memo.tokens == id {
+                    memo.done.insert(offset, (rest.get_offset(), expr.clone()));
+                }
+            }
+        });
+    }
+    result
+}
+
+fn expression_uncached(input: SliceIter<Token>) -> ParseResult<Expression> {
     let _input = input.clone();
     match trace_parse!(_input, op_expression) {
         Result::Incomplete(i) => Result::Incomplete(i),
@@ -1007,6 +1077,7 @@ pub fn parse<'a>(
 ) -> std::result::Result<Vec<Statement>, BuildError> {
     match tokenize(input.clone(), comment_map) {
         Ok(tokenized) => {
+            let _memo = ExprMemoScope::new(&tokenized);
             let mut out = Vec::new();
             let mut i_ = SliceIter::new(&tokenized);
             loop {
